@@ -23,7 +23,7 @@ class Lens(ScatteringTheory):
     parameter_names = ('lens_angle',)
 
     numexpr_integrand_prefactor1 = (
-        'exp(1j * krho_p * sintheta * cos(phi_relative))')
+        'exp(-1j * krho_p * sintheta * cos(phi_relative))')
     numexpr_integrand_prefactor2 = 'exp(1j * kz_p * (1 - costheta))'
     numexpr_integrand_prefactor3 = (
         'sqrt(costheta) * sintheta * phi_wts * theta_wts')
@@ -122,8 +122,13 @@ class Lens(ScatteringTheory):
             prefactor *= ne.evaluate(self.numexpr_integrand_prefactor2)
             prefactor *= ne.evaluate(self.numexpr_integrand_prefactor3)
         else:
+            # (the integrand is written in the conjugated, exp(+iwt),
+            # convention -- conj(S), exp(+i kz (1 - cos theta)) -- in which
+            # the transverse phase is exp(-i k_perp . rho); with the other
+            # sign every scatterer that is not point-symmetric about its
+            # centre is imaged rotated by 180 degrees about the optical axis)
             prefactor = np.exp(
-                1j * krho_p * sintheta * np.cos(phi_relative))
+                -1j * krho_p * sintheta * np.cos(phi_relative))
             prefactor *= np.exp(1j * kz_p * (1 - costheta))
             prefactor *= (np.sqrt(costheta) * sintheta *
                           phi_wts * theta_wts)
